@@ -47,6 +47,23 @@ type TEnv struct {
 	Uses map[string]int
 	// NoRenameReuse disables project's renaming onto existing column names.
 	NoRenameReuse bool
+	// ForceQuote: column names that must be written in backticks because an
+	// unquoted identifier of that name would denote a binding.
+	ForceQuote map[string]bool
+}
+
+// id spells a column name, quoting it when a binding shadows it.
+func (env *TEnv) id(name string) Ident {
+	id := ColIdent(name)
+	if env != nil && env.ForceQuote[name] {
+		id.Quoted = true
+	}
+	return id
+}
+
+// plain returns the reference function for ordinary column references.
+func (env *TEnv) plain() refFn {
+	return func(c TCol) Expr { return &QIdent{Parts: []Ident{env.id(c.Name)}} }
 }
 
 func (s Schema) usable(t Type) []TCol {
@@ -226,11 +243,11 @@ func (g *G) BoolExpr(depth int, s Schema, ref refFn, env *TEnv, pos string) Expr
 func (g *G) TypedExpr(depth int, s Schema, env *TEnv, pos string) (Expr, Type) {
 	switch g.n("etype", 3) {
 	case 0:
-		return g.IntExpr(depth, s, plainRef, env, pos), TInt
+		return g.IntExpr(depth, s, env.plain(), env, pos), TInt
 	case 1:
-		return g.StrExpr(depth, s, plainRef, env, pos), TStr
+		return g.StrExpr(depth, s, env.plain(), env, pos), TStr
 	default:
-		return g.BoolExpr(depth, s, plainRef, env, pos), TBool
+		return g.BoolExpr(depth, s, env.plain(), env, pos), TBool
 	}
 }
 
@@ -269,9 +286,9 @@ func (g *G) FixParens(x Expr) Expr {
 func (g *G) typedTerm(s Schema, env *TEnv) *Term {
 	var x Expr
 	if g.n("termtype", 2) == 0 {
-		x = g.IntExpr(g.n("termdepth", 2), s, plainRef, env, "sort")
+		x = g.IntExpr(g.n("termdepth", 2), s, env.plain(), env, "sort")
 	} else {
-		x = g.StrExpr(g.n("termdepth", 2), s, plainRef, env, "sort")
+		x = g.StrExpr(g.n("termdepth", 2), s, env.plain(), env, "sort")
 	}
 	return &Term{X: g.FixParens(x), Dir: pickFrom(g, "dir", []string{"", "asc", "desc"}), Nulls: pickFrom(g, "nulls", []string{"", "first", "last"})}
 }
@@ -289,7 +306,7 @@ func (g *G) TypedOp(kind string, s Schema, env *TEnv, joinDepth int) (Op, Schema
 	usable := len(s.anyUsable()) > 0
 	switch kind {
 	case "where":
-		return &Where{Kw: pickFrom(g, "wherekw", []string{"where", "filter"}), Pred: g.FixParens(g.BoolExpr(1+g.n("wdepth", 2), s, plainRef, env, "where"))}, s, true
+		return &Where{Kw: pickFrom(g, "wherekw", []string{"where", "filter"}), Pred: g.FixParens(g.BoolExpr(1+g.n("wdepth", 2), s, env.plain(), env, "where"))}, s, true
 	case "project":
 		if !usable {
 			return nil, s, false
@@ -304,7 +321,7 @@ func (g *G) TypedOp(kind string, s Schema, env *TEnv, joinDepth int) (Op, Schema
 					continue
 				}
 				used[c.Name] = true
-				id := ColIdent(c.Name)
+				id := env.id(c.Name)
 				p.Cols = append(p.Cols, &Col{Name: &id})
 				ns = append(ns, TCol{Name: c.Name, T: c.T})
 				continue
@@ -365,15 +382,15 @@ func (g *G) TypedOp(kind string, s Schema, env *TEnv, joinDepth int) (Op, Schema
 				}
 				if g.n("bynamed", 3) == 0 {
 					id := Ident{Name: g.Fresh("n")}
-					op.By = append(op.By, &Col{Name: &id, X: ColRef(c.Name)})
+					op.By = append(op.By, &Col{Name: &id, X: &QIdent{Parts: []Ident{env.id(c.Name)}}})
 					ns = append(ns, TCol{Name: id.Name, T: c.T})
 				} else {
-					op.By = append(op.By, &Col{X: ColRef(c.Name)})
+					op.By = append(op.By, &Col{X: &QIdent{Parts: []Ident{env.id(c.Name)}}})
 					ns = append(ns, TCol{Name: c.Name, T: c.T})
 				}
 			} else {
 				id := Ident{Name: g.Fresh("n")}
-				op.By = append(op.By, &Col{Name: &id, X: g.FixParens(g.IntExpr(1, s, plainRef, env, "groupby"))})
+				op.By = append(op.By, &Col{Name: &id, X: g.FixParens(g.IntExpr(1, s, env.plain(), env, "groupby"))})
 				ns = append(ns, TCol{Name: id.Name, T: TInt})
 			}
 		}
@@ -388,12 +405,12 @@ func (g *G) TypedOp(kind string, s Schema, env *TEnv, joinDepth int) (Op, Schema
 			case k == 0:
 				x = &Call{Func: "count"}
 			case k == 1:
-				x = &Call{Func: "countif", Args: []Expr{g.FixParens(g.BoolExpr(1, s, plainRef, env, "aggregate"))}}
+				x = &Call{Func: "countif", Args: []Expr{g.FixParens(g.BoolExpr(1, s, env.plain(), env, "aggregate"))}}
 			case k == 2 && len(s.usable(TStr)) > 0:
-				x = &Call{Func: pickFrom(g, "minmax", []string{"min", "max"}), Args: []Expr{g.FixParens(g.StrExpr(0, s, plainRef, env, "aggregate"))}}
+				x = &Call{Func: pickFrom(g, "minmax", []string{"min", "max"}), Args: []Expr{g.FixParens(g.StrExpr(0, s, env.plain(), env, "aggregate"))}}
 				t = TStr
 			default:
-				x = &Call{Func: pickFrom(g, "intagg", []string{"sum", "min", "max"}), Args: []Expr{g.FixParens(g.IntExpr(1, s, plainRef, env, "aggregate"))}}
+				x = &Call{Func: pickFrom(g, "intagg", []string{"sum", "min", "max"}), Args: []Expr{g.FixParens(g.IntExpr(1, s, env.plain(), env, "aggregate"))}}
 			}
 			if g.n("unnamedagg", 8) == 0 {
 				op.Cols = append(op.Cols, &Col{X: x})
@@ -482,7 +499,7 @@ func (g *G) TypedOp(kind string, s Schema, env *TEnv, joinDepth int) (Op, Schema
 			return &Binary{Op: "==", X: sideRef("$left", l.Name), Y: sideRef("$right", r.Name)}
 		}
 		switch {
-		case lk && rk && g.n("barekey", 2) == 0:
+		case lk && rk && !env.ForceQuote["k"] && g.n("barekey", 2) == 0:
 			conds = append(conds, ID("k"))
 		case len(li) > 0 && len(ri) > 0:
 			conds = append(conds, eq())
